@@ -1,6 +1,8 @@
 (* Run/C15_run.v -- correspondence runner for C15 (harness/cmd/c15/main.go).
    wire:
-     (0 url route_prefix job (bop...) (call...) (builder_err (obs...)))   a Pusher's life on the real code
+     (0 url route_prefix job (step...) (err_after_New (sobs...)))        a Pusher's life on the real code:
+                                                                          step = (0 bop) | (1 call) in any interleaving,
+                                                                          sobs = (0 berr?) error recorded after the builder call | (1 obs)
      (1 s enc is_b64)                                                     encodeComponent
      (2 s pct b64)                                                        the decoder of the specification against Go's
                                                                           url.PathUnescape / base64.RawURLEncoding (pct, b64 = () | (bytes))
@@ -130,13 +132,33 @@ Definition call_model_ok (p : pusher) (c : call) (mo : outcome) (o : obs) : bool
   | None, Some _ => false
   end.
 
-(* returns (spec_ok, model_ok) over the calls of one Pusher *)
-Fixpoint check_calls (pre job : str) (ops : list bop) (p : pusher) (cs : list call) (os : list obs) : bool * bool :=
-  match cs, os with
+Inductive step := SB (b : bop) | SC (c : call).
+Inductive sobs := OBld (e : option berr) | OCall (o : obs).
+Definition d_step (s : sx) : option step :=
+  match s with
+  | SL [SZ 0; b] => option_map SB (d_bop b)
+  | SL [SZ 1; c] => option_map SC (d_call c)
+  | _ => None
+  end.
+Definition d_sobs (s : sx) : option sobs :=
+  match s with
+  | SL [SZ 0; e] => option_map OBld (dOpt d_berr e)
+  | SL [SZ 1; o] => option_map OCall (d_obs o)
+  | _ => None
+  end.
+
+(* returns (spec_ok, model_ok) over the steps of one Pusher; ops = the builder calls made so far *)
+Fixpoint check_steps (pre job : str) (ops : list bop) (p : pusher) (ss : list step) (os : list sobs) : bool * bool :=
+  match ss, os with
   | [], [] => (true, true)
-  | c :: cr, o :: or_ =>
+  | SB b :: sr, OBld e :: or_ =>
+      let p1 := apply_bop p b in
+      let ops1 := ops ++ [b] in
+      let (s, m) := check_steps pre job ops1 p1 sr or_ in
+      (opt_berr_eqb (spec_first_error job ops1) e && s, opt_berr_eqb (p_err p1) e && m)
+  | SC c :: sr, OCall o :: or_ =>
       let (p1, mo) := do_call p (p_grouping p) c in
-      let (s, m) := check_calls pre job ops p1 cr or_ in
+      let (s, m) := check_steps pre job ops p1 sr or_ in
       (spec_call_ok pre job ops c o && s, call_model_ok p c mo o && m)
   | _, _ => (false, false)
   end.
@@ -150,15 +172,15 @@ Definition opt_str_eqb (a b : option str) : bool :=
 
 Definition check (s : sx) : Z :=
   match s with
-  | SL [SZ 0; url; pre; job; ops; calls; SL [ib; iobs]] =>
-      match dStr url, dStr pre, dStr job, dL d_bop ops, dL d_call calls, dOpt d_berr ib, dL d_obs iobs with
-      | Some url, Some pre, Some job, Some ops, Some calls, Some ib, Some iobs =>
-          if negb (Nat.eqb (length calls) (length iobs)) then code_decode_error else
-          let p0 := run_builder (new url job) ops in
-          let (sp, mo) := check_calls pre job ops p0 calls iobs in
-          both (opt_berr_eqb (spec_first_error job ops) ib && sp)
+  | SL [SZ 0; url; pre; job; steps; SL [ib; iobs]] =>
+      match dStr url, dStr pre, dStr job, dL d_step steps, dOpt d_berr ib, dL d_sobs iobs with
+      | Some url, Some pre, Some job, Some steps, Some ib, Some iobs =>
+          if negb (Nat.eqb (length steps) (length iobs)) then code_decode_error else
+          let p0 := new url job in
+          let (sp, mo) := check_steps pre job [] p0 steps iobs in
+          both (opt_berr_eqb (spec_first_error job []) ib && sp)
                (opt_berr_eqb (p_err p0) ib && str_eqb (url_path (p_url p0)) pre && mo)
-      | _, _, _, _, _, _, _ => code_decode_error
+      | _, _, _, _, _, _ => code_decode_error
       end
   | SL [SZ 1; s; enc; b] =>
       match dStr s, dStr enc, dB b with
@@ -192,26 +214,29 @@ Definition e_outcome (o : outcome) : sx :=
 Definition e_key (k : option (str * list (str * str))) : sx :=
   eOpt (fun jk => SL [eStr (fst jk); eL (fun nv => SL [eStr (fst nv); eStr (snd nv)]) (snd jk)]) k.
 
-(* per call: (model outcome, spec verdict on the implementation's observation, key decoded from the observed path) *)
-Fixpoint explain_calls (pre job : str) (ops : list bop) (p : pusher) (cs : list call) (os : list obs) : list sx :=
-  match cs, os with
-  | c :: cr, o :: or_ =>
+(* per step: builder call -> (model's recorded error, specification's); call -> (model outcome, spec verdict on the
+   implementation's observation, model verdict, key decoded from the observed path) *)
+Fixpoint explain_steps (pre job : str) (ops : list bop) (p : pusher) (ss : list step) (os : list sobs) : list sx :=
+  match ss, os with
+  | SB b :: sr, _ :: or_ =>
+      let p1 := apply_bop p b in
+      SL [eOpt e_berr (p_err p1); eOpt e_berr (spec_first_error job (ops ++ [b]))] :: explain_steps pre job (ops ++ [b]) p1 sr or_
+  | SC c :: sr, OCall o :: or_ =>
       let (p1, mo) := do_call p (p_grouping p) c in
       SL [e_outcome mo; eB (spec_call_ok pre job ops c o); eB (call_model_ok p c mo o);
           match ob_req o with Some (_, path, _) => e_key (decode_path pre path) | None => SL [] end]
-      :: explain_calls pre job ops p1 cr or_
+      :: explain_steps pre job ops p1 sr or_
   | _, _ => []
   end.
 
 Definition explain (s : sx) : sx :=
   match s with
-  | SL [SZ 0; url; pre; job; ops; calls; SL [ib; iobs]] =>
-      match dStr url, dStr pre, dStr job, dL d_bop ops, dL d_call calls, dL d_obs iobs with
-      | Some url, Some pre, Some job, Some ops, Some calls, Some iobs =>
-          let p0 := run_builder (new url job) ops in
-          SL [eOpt e_berr (p_err p0); eOpt e_berr (spec_first_error job ops); eStr (url_path (p_url p0));
-              SL (explain_calls pre job ops p0 calls iobs)]
-      | _, _, _, _, _, _ => SL []
+  | SL [SZ 0; url; pre; job; steps; SL [ib; iobs]] =>
+      match dStr url, dStr pre, dStr job, dL d_step steps, dL d_sobs iobs with
+      | Some url, Some pre, Some job, Some steps, Some iobs =>
+          let p0 := new url job in
+          SL [eOpt e_berr (p_err p0); eStr (url_path (p_url p0)); SL (explain_steps pre job [] p0 steps iobs)]
+      | _, _, _, _, _ => SL []
       end
   | SL [SZ 1; s; _; _] =>
       match dStr s with
